@@ -1,29 +1,28 @@
 (* C12 -- tree operations keep every node consistent with the tree it is in.  Statements only.
    The model (Model/Forest.v) follows the stored _root/_treepath pointers the way classes/node.py does. *)
 From Coq Require Import Permutation.
-From Emd Require Import Base.Prelude Model.Forest Proofs.PForest.
+From Emd Require Import Base.Prelude Model.Forest Proofs.PForest Proofs.PForestRoot.
 
 (* WF s: identities unique; every top-level object is a Root whose whole tree carries that root and each
    node's real path as stored path, or an unrooted childless node; ids below next_id.
    names_ok: non-root nodes are distinctly named (the property's quantifier).
-   in_domain: grafts onto an own descendant are excluded (the property's quantifier), and -- PARTIAL --
-   the donor of a graft/cut is not itself a Root (root donors are covered by the correspondence and the
-   oracle only; see DESIGN.md). *)
+   in_domain': grafts onto a node of the grafted branch itself are excluded (the property's quantifier); nothing else:
+   the donor of a graft / cut / force_add may be an inner node or a Root (whose children are then moved one by one). *)
 
-Theorem C12_step_preserves_wellformedness_partial :
-  forall s o, WF s -> names_ok s -> in_domain s o ->
+Theorem C12_step_preserves_wellformedness :
+  forall s o, WF s -> names_ok s -> in_domain' s o ->
     let s' := fst (step s o) in
     WF s' /\ names_ok s' /\
     exists E, Permutation (flabs (trees s')) (flabs (trees s) ++ E) /\
               Forall (fun l => snd (fst l) = true /\ next_id s <= lid l < next_id s') E /\ next_id s <= next_id s'.
-Proof. exact step_wf. Qed.
-Print Assumptions C12_step_preserves_wellformedness_partial.
+Proof. exact step_wf_full. Qed.
+Print Assumptions C12_step_preserves_wellformedness.
 
 (* any finite sequence of operations *)
-Theorem C12_any_sequence_partial :
-  forall ops s, WF s -> names_ok s -> dom_run s ops -> WF (fst (run s ops)) /\ names_ok (fst (run s ops)).
-Proof. exact run_wf. Qed.
-Print Assumptions C12_any_sequence_partial.
+Theorem C12_any_sequence :
+  forall ops s, WF s -> names_ok s -> dom_run' s ops -> WF (fst (run s ops)) /\ names_ok (fst (run s ops)).
+Proof. exact run_wf_full. Qed.
+Print Assumptions C12_any_sequence.
 
 (* in a well-formed forest, looking up a node's own stored path from its root returns that node,
    and the node reports that root *)
@@ -52,16 +51,21 @@ Definition ex_state : st :=
   ST [ TN 0 true "r0" (Some 0) (Some []) [] [ TN 2 false "a" (Some 0) (Some ["a"]) [] [] ];
        TN 1 true "r1" (Some 1) (Some []) []
           [ TN 3 false "b" (Some 1) (Some ["b"]) [] [ TN 4 false "c" (Some 1) (Some ["b"; "c"]) [] [] ] ] ] 5 0.
-Example C12_hypotheses_satisfiable : WF ex_state /\ names_ok ex_state /\ in_domain ex_state (OGraft 2 3 MTrue)
-  /\ snd (step ex_state (OGraft 2 3 MTrue)) = true.
+Example C12_hypotheses_satisfiable : WF ex_state /\ names_ok ex_state /\ in_domain' ex_state (OGraft 2 3 MTrue)
+  /\ snd (step ex_state (OGraft 2 3 MTrue)) = true
+  /\ in_domain' ex_state (OGraft 2 1 MTrue) /\ snd (step ex_state (OGraft 2 1 MTrue)) = true     (* a Root as the donor *)
+  /\ snd (step ex_state (OCut 1 MCopy)) = true.
 Proof.
-  split; [|split; [|split]].
+  split; [|split; [|split; [|split; [|split; [|split]]]]].
   - split; [split|].
     + cbn. repeat (constructor; [cbn; intuition discriminate|]). constructor.
     + repeat constructor; cbn; left; repeat split; repeat constructor.
     + cbn. intros i Hi. repeat (destruct Hi as [<-|Hi]; [lia|]). destruct Hi.
   - intros a b Ha Hb. cbn in Ha, Hb.
     repeat (destruct Ha as [<-|Ha]; [repeat (destruct Hb as [<-|Hb]; [cbn; intros; try reflexivity; try discriminate|]); try destruct Hb|]); destruct Ha.
-  - cbn. intros dn H. injection H as <-. cbn. split; [reflexivity|]. intuition discriminate.
+  - cbn. intros dn H. injection H as <-. cbn. intuition discriminate.
+  - reflexivity.
+  - cbn. intros dn H. injection H as <-. cbn. intuition discriminate.
+  - reflexivity.
   - reflexivity.
 Qed.
